@@ -111,3 +111,5 @@ func draws(seed int64, k int) []float64 {
 	}
 	return out
 }
+
+func drawsGen(seed int64) func() float64 { return utils.RandomBasedSeedValueGenerator(seed) }
